@@ -1,6 +1,7 @@
 (* MODELS: data *)
 (* Driver for the vnadata_t container model and the vnadata_convert model (C15, C05).
-   usage: drv_data [--as-found | --quirks d4,d5,d6,d40]  < script  > transcript
+   usage: drv_data [--as-found | --quirks d4,d5,d6,d40] [--dd2-fixed]  < script  > transcript
+   (--dd2-fixed: the model variant with the repair of finding DD2, ConvertModel.dd2_fixed = true)
    Script: one operation per line (see harness/data_harness.c for the grammar, both programs read
    the same file).  Values are Gaussian integers "re,im".
    Transcript: per operation
@@ -95,12 +96,20 @@ let digest i d =
     (sz ft) (match fm with None -> "-1" | Some k -> sn k) (sz fp) (sz dp)
 
 let () =
-  let q =
-    if Array.length Sys.argv > 1 && Sys.argv.(1) = "--as-found" then as_found
-    else if Array.length Sys.argv > 2 && Sys.argv.(1) = "--quirks" then begin
-      let l = Stdlib.String.split_on_char ',' Sys.argv.(2) in
-      { q_d4 = List.mem "d4" l; q_d5 = List.mem "d5" l; q_d6 = List.mem "d6" l; q_d40 = List.mem "d40" l }
-    end else fixed in
+  let q = ref fixed and dd2 = ref false in
+  let i = ref 1 in
+  while !i < Array.length Sys.argv do
+    (match Sys.argv.(!i) with
+     | "--as-found" -> q := as_found
+     | "--quirks" ->
+       incr i;
+       let l = Stdlib.String.split_on_char ',' Sys.argv.(!i) in
+       q := { q_d4 = List.mem "d4" l; q_d5 = List.mem "d5" l; q_d6 = List.mem "d6" l; q_d40 = List.mem "d40" l }
+     | "--dd2-fixed" -> dd2 := true
+     | s -> failwith ("unknown option " ^ s));
+    incr i
+  done;
+  let q = !q and dd2 = !dd2 in
   let vzero = Lit (0, 0) and vdef = Lit (50, 0) in
   let st = ref (minit vzero vdef) in
   let toks = ref [] in
@@ -160,7 +169,7 @@ let () =
               | _ -> failwith ("unknown op " ^ name)) in
             (MOn (i = 1, o), i)
           end in
-        let (s', r) = mstep vzero vdef q conv !st mop in
+        let (s', r) = mstep vzero vdef q dd2 conv !st mop in
         st := s';
         let rs = (match r.o_ret with ROk -> "ok" | RFail -> "fail" | RFault -> "fault") in
         let es = (match r.o_ret with RFail -> "EINVAL" | _ -> "0") in
